@@ -93,6 +93,11 @@ P = {
    "Static analysis of this repository's own reader code, not of the decoders: every index into a decoded CSV record is guarded against len(record); every reader goroutine closes its channel on all exits (go/cfg may-analysis); every error branch in a reader loop leaves the loop; ReadFromFile closes the file after the reader finished; in the Tiingo client a non-200 status is an error before decoding and the response body is closed on every control-flow path after a successful request; JSONToChan checks the opening delimiter. The behaviour of encoding/csv, encoding/json and net/http on arbitrary bytes is not decided.",
    "Trusts go/types, go/cfg, and encoding/csv's field-count check for rows after the first. Repaired: unguarded record index (029c59c), Tiingo body leaks (d70d16c).",
    "§4 C19"),
+ "C15": (True,
+   "range proof over value terms: each bound of the statement is reduced, on the rational-function normal form of the indicator's derived value term, to polynomial non-negativity and discharged by an exact linear-programming certificate (products of degree <= 2) from the validity of the inputs and the axioms of the primitive operators; conditionals split by cases, sub-indicators enter through their own proved lemmas",
+   "Static analysis, a proof for every series and configuration of everything it accepts: for each bound in C15's statement (RSI, MFI, Stochastic %K/%D, Aroon in [0,100]; Williams %R in [-100,0]; Stochastic RSI in [0,1]; MFM, CMF, BoP in [-1,1]; upper >= middle >= lower for Bollinger, Keltner, Donchian, Acceleration, Envelope; ATR, Ulcer index, band width, standard deviation >= 0) the check takes the value term the calculus derives from the source (the one C01 compares with the documented formula), writes bound - value as N/D over atoms and finds non-negative rational multipliers expressing the needed sign of N and of D as a combination of: low <= open, close <= high, prices > 0, volume >= 0 on each day; |x| >= +-x; max/min bounds; MovingMax(x) >= x >= MovingMin(x); positivity, linearity and constant-preservation of Sma/Ema/Rma/Smma/MovingSum; MovingStd >= 0 (its sent value is a math.Sqrt result, checked); whole-number rounding keeps whole bounds. Positions with a zero denominator are exempt as in the statement. Not decided: the clause 'moving min <= value <= moving max' itself (it is the operator axiom, assumed; C17 covers the search tree), floating-point rounding, Atr/Envelope configured with a non-averaging moving average (Dema, Tema, Hma).",
+   "Trusts go/types, the value terms (C01), the operator-axiom table, the claims table, the exact simplex in internal/posit, 'configuration parameters are non-negative and periods >= 1', 'a generic input series is a price series'. Aroon Up/Down below 0 on repeated extremes is a genuine defect pinned by TestAroon: known finding.",
+   "§4 C15"),
  "C16": (True,
    "token-count abstract interpretation of every goroutine stage in helper/ (Engine B) compared with a frozen slice-model table by exact linear entailment",
    "Static analysis. For each stream helper the output length, the number of elements taken from every input, consumption to the end, anchor, fill prefix, output capacity, close-on-every-path and close/drain order are derived from the helper's own source for symbolic input lengths (one symbol per input) and parameters, and proved equal to the slice model for ALL lengths and parameters in the documented domain. Which values are emitted is not decided.",
